@@ -2,6 +2,7 @@
   Props/C05.lean — every attempt is reported exactly once, as the right kind, to all collectors.
   All theorems are quantified over EVERY open/close logic (arbitrary state types and functions).
 -/
+import CircuitProofs.Props.C05Tie
 import CircuitProofs.Props.CircuitCommon
 import CircuitProofs.Lemmas.CircuitA
 namespace CM.Props.C05
